@@ -80,7 +80,15 @@ func c07Scenarios(tier string) []*Scenario {
 				return func() {
 					s := get()
 					s.Counter("c").Inc(first)
+					if v.twoApps {
+						// two goroutines may hold the same scope object: an increment is only
+						// guaranteed when it was made before Close was called on that object
+						rec.Mark(fmt.Sprintf("inc-done %d %p", first, s))
+					}
 					oc.Inc(first)
+					if v.twoApps {
+						rec.Mark(fmt.Sprintf("close-called %p", s))
+					}
 					closeScope(s)
 					if v.noReacquire {
 						return
@@ -98,6 +106,9 @@ func c07Scenarios(tier string) []*Scenario {
 						x.failf("reacquired-scope-inert", "a scope obtained after Close of an equal scope is the inert scope")
 					}
 					s2.Counter("c").Inc(second)
+					if v.twoApps {
+						rec.Mark(fmt.Sprintf("inc-done %d %p", second, s2))
+					}
 					if !v.twoApps {
 						x.Vals["s2"] = s2
 					}
@@ -151,6 +162,42 @@ func c07Scenarios(tier string) []*Scenario {
 			}
 			want := map[string]int64{id: tot, `c{"o":"1"}`: otot}
 			quiet := x.Vals["quiet"].(int)
+			if v.twoApps {
+				// required: increments completed before Close was called on their scope object;
+				// the others (made on an object the other goroutine had already closed) may or may not arrive
+				closed := map[string]bool{}
+				var required, optional int64
+				for _, e := range x.Rec.Log {
+					if e.Kind != "mark" {
+						continue
+					}
+					var n int64
+					var ptr string
+					if _, err := fmt.Sscanf(e.Note, "close-called %s", &ptr); err == nil {
+						closed[ptr] = true
+					} else if _, err := fmt.Sscanf(e.Note, "inc-done %d %s", &n, &ptr); err == nil {
+						if closed[ptr] {
+							optional += n
+						} else {
+							required += n
+						}
+					}
+				}
+				required += 4 // the increment made by the main thread on the re-obtained scope
+				got := sumCounters(x.Rec.Log, 0, len(x.Rec.Log))
+				if g := got[id]; g < required || g > required+optional || (g-required)&^optional != 0 {
+					return "sum-mismatch", fmt.Sprintf("counter %s: delivered %d; increments made before Close was called on their scope add up to %d, increments made on an already closed scope object to %d", id, g, required, optional), "viol"
+				}
+				if got[`c{"o":"1"}`] != otot {
+					return "sum-mismatch", fmt.Sprintf("counter of the other scope: delivered %d of %d", got[`c{"o":"1"}`], otot), "viol"
+				}
+				for i, e := range x.Rec.Log {
+					if e.Kind == "counter" && e.I <= 0 {
+						return "non-positive-delta", fmt.Sprintf("log[%d] %s", i, e.String()), "viol"
+					}
+				}
+				return "", "", deliveredOutcome(x.Rec.Log)
+			}
 			if v.loop {
 				// the loop goroutine may deliver a pending delta at any time
 				quiet = -1
